@@ -756,7 +756,7 @@ theorem subscribe_cases (cfg : Cfg) {P : Pend} {s : St} (hi : Inv P s) :
 
 /-- a plain event keeps the invariant; a source terminal may close the pending creator -/
 theorem inv_step' (cfg : Cfg) {P : Pend} {s : St} (hi : Inv P s) (e : Event) (hself : ∀ A, P.ua = some A → e ≠ .unsub A) :
-    Inv P (step cfg s e) ∨ Inv P.drop (step cfg s e) := by
+    Inv P (step cfg s e) ∨ (Inv P.drop (step cfg s e) ∧ openSubs (step cfg s e) = []) := by
   cases e with
   | sub => exact Or.inl (subscribe_cases cfg hi)
   | unsub i =>
@@ -767,7 +767,7 @@ theorem inv_step' (cfg : Cfg) {P : Pend} {s : St} (hi : Inv P s) (e : Event) (hs
   | src x => exact inv_push cfg x hi
 
 theorem inv_step (cfg : Cfg) {s : St} (hi : Inv Pend.idle s) (e : Event) : Inv Pend.idle (step cfg s e) := by
-  rcases inv_step' cfg hi e (fun A hA => by simp at hA) with h | h
+  rcases inv_step' cfg hi e (fun A hA => by simp at hA) with h | ⟨h, _⟩
   · exact h
   · simpa using h
 
